@@ -154,7 +154,7 @@ pub fn resolve_data_element(
         {
             if opts.debug_iterations
             {
-                println!(
+                debug_println!(
                     " data: {} = {:?} [static]",
                     fileserver.get_excerpt(expr.span()),
                     data_elem.encoding);
@@ -180,7 +180,7 @@ pub fn resolve_data_element(
         
         if opts.debug_iterations
         {
-            println!(
+            debug_println!(
                 " data: {} = {:?}",
                 fileserver.get_excerpt(expr.span()),
                 data_elem.encoding);
